@@ -638,6 +638,12 @@ func rulePayloadOnlyGrows(c *Ctx, r *Rule) {
 				okHigh := false
 				if k, isK := constInt(sl.High); isK && k == 0 {
 					okHigh = true
+					// emptying is how a batch starts; a function that is handed the buffer as an argument and
+					// returns it (the per-event encoder contract: append to what is there) must not empty it —
+					// that drops every event already in the body
+					if par, isPar := bufferParam(sl.X); isPar && returnsValue(fn, sl) {
+						r.Ob(false, fmt.Sprintf("%s|empties-its-argument", c.fnName(fn)), sl.Pos(), "a function that receives the payload buffer ("+par.Name()+") and returns it appends to it; returning it emptied drops every event already encoded into the body of this batch")
+					}
 				}
 				f := lin(sl.High)
 				if !okHigh && f.k <= 0 && len(f.t) == 1 {
@@ -732,4 +738,28 @@ func ruleScratchRootReset(c *Ctx, r *Rule) {
 		}
 	}
 	r.Ob(n >= 1, "plugin/output|scratch-roots", token.NoPos, fmt.Sprintf("%d per-event callbacks fill and encode a re-used JSON root", n))
+}
+
+// bufferParam: v is a []byte parameter of its function (through φs).
+func bufferParam(v ssa.Value) (*ssa.Parameter, bool) {
+	for _, leaf := range phiLeaves(v) {
+		if p, ok := leaf.(*ssa.Parameter); ok {
+			return p, true
+		}
+	}
+	return nil, false
+}
+
+// returnsValue: v (through φs) is a result of fn.
+func returnsValue(fn *ssa.Function, v ssa.Value) bool {
+	for _, ret := range returnsOf(fn) {
+		for _, res := range retResults(ret) {
+			for _, leaf := range phiLeaves(res) {
+				if leaf == v {
+					return true
+				}
+			}
+		}
+	}
+	return false
 }
